@@ -393,7 +393,7 @@ def H5(vc):
         def detect(**kw):
             vc.emit('detect', k, kw); return made[k]
         return detect
-    vc.used('causes.detect_changing_cause', 'K1'); vc.used('diffs.diff', 'E3'); vc.used('diffbase/progress storages', 'E1')
+    vc.used('causes.detect_changing_cause', 'K1'); vc.used('diffs.diff', 'E3w + E3d (deductive); E3 bounded'); vc.used('diffbase/progress storages', 'E1')
     ld = vc.load('kopf._core.reactor.processing', '_detect_causes', stubs={
         'diffs.diff': diff,
         'causes.detect_watching_cause': detector('watching'),
